@@ -24,20 +24,24 @@ EXTENDS Naturals, Integers, Sequences, FiniteSets, TLC, Json
 CONSTANTS Msgs,        \* message ids 1..n
           KeyOf,       \* message id -> table-group key (an integer)
           TmplOf,      \* message id -> template id
-          Bad,         \* message ids whose decode fails (after the tables were loaded)
+          Bad,         \* message ids whose decode fails (after the tables were loaded): at the stop signature, while the template
+                       \* is built, in the middle of the data
+          Lenient,     \* the damaged messages that decode when expected values are not enforced (a subset of Bad)
           Strict,      \* message ids whose identification names tables that are not all installed: the decoder
                        \* falls back to the tables that exist, the encoder (which does not) refuses
           TgLimit, CompMax, MaxLen
 
-VARIABLES tg, comp, objs, lenient, resolved, hist
-vars == <<tg, comp, objs, lenient, resolved, hist>>
-View == <<tg, comp, objs, lenient, resolved>>
+VARIABLES tg, comp, objs, lenient, resolved, failed, hist
+vars == <<tg, comp, objs, lenient, resolved, failed, hist>>
+View == <<tg, comp, objs, lenient, resolved, failed>>
 
 (* lenient: the coder object has been used with expected values not enforced - a per-call option that must leave
    nothing behind, which is why the model keeps it as state: every operation is exercised before AND after it *)
 (* resolved: which path asked first for the tables of an incomplete identification ("none", "forgiving" = decoder,
    "strict" = encoder) - again state that must not exist, kept so that both orders are exercised *)
-Init == tg = <<>> /\ comp = {} /\ objs = {} /\ lenient = FALSE /\ resolved = "none" /\ hist = <<>>
+(* failed: the messages whose decode has failed already - a failure must leave nothing behind (a template remembered before it was
+   built, a half-filled cache entry), so the same failing message is tried again and every other operation is exercised after it *)
+Init == tg = <<>> /\ comp = {} /\ objs = {} /\ lenient = FALSE /\ resolved = "none" /\ failed = {} /\ hist = <<>>
 
 Has(s, x) == \E i \in 1..Len(s) : s[i] = x
 (* loading a table group: drop the most recent entries until there is room, then insert *)
@@ -52,21 +56,21 @@ Compile(t, k) ==
 Step(op, m) == hist' = Append(hist, [op |-> op, m |-> m]) /\ Len(hist) < MaxLen
 
 Decode(m) == /\ m \in Msgs \ Bad /\ Step("decode", m)
-             /\ tg' = Load(KeyOf[m]) /\ comp' \in Compile(TmplOf[m], KeyOf[m]) /\ objs' = objs \cup {m} /\ UNCHANGED lenient
+             /\ tg' = Load(KeyOf[m]) /\ comp' \in Compile(TmplOf[m], KeyOf[m]) /\ objs' = objs \cup {m} /\ UNCHANGED <<lenient, failed>>
              /\ resolved' = IF m \in Strict /\ resolved = "none" THEN "forgiving" ELSE resolved
 DecodeFails(m) == /\ m \in Bad /\ Step("decode_fails", m)
-                  /\ tg' = Load(KeyOf[m]) /\ UNCHANGED <<comp, objs, lenient, resolved>>
+                  /\ tg' = Load(KeyOf[m]) /\ failed' = failed \cup {m} /\ UNCHANGED <<comp, objs, lenient, resolved>>
 (* the damaged message decoded with expected values not enforced (ignore_value_expectation): it succeeds; the option
    belongs to that call only - afterwards the same coder must refuse the message again *)
 DecodeLenient(m) == /\ m \in Bad /\ Step("decode_ive", m)
-                    /\ tg' = Load(KeyOf[m]) /\ lenient' = TRUE /\ UNCHANGED <<comp, objs, resolved>>
+                    /\ m \in Lenient /\ tg' = Load(KeyOf[m]) /\ lenient' = TRUE /\ UNCHANGED <<comp, objs, resolved, failed>>
 Encode(m) == /\ m \in Msgs \ (Bad \cup Strict) /\ Step("encode", m)
-             /\ tg' = Load(KeyOf[m]) /\ comp' \in Compile(TmplOf[m], KeyOf[m]) /\ UNCHANGED <<objs, lenient, resolved>>
+             /\ tg' = Load(KeyOf[m]) /\ comp' \in Compile(TmplOf[m], KeyOf[m]) /\ UNCHANGED <<objs, lenient, resolved, failed>>
 (* the encoder is asked for an identification whose tables are not all there: refused, nothing is loaded *)
 EncodeRefused(m) == /\ m \in Strict /\ Step("encode", m)
                     /\ resolved' = IF resolved = "none" THEN "strict" ELSE resolved
-                    /\ UNCHANGED <<tg, comp, objs, lenient>>
-Use(op, m) == /\ m \in objs /\ Step(op, m) /\ UNCHANGED <<tg, comp, objs, lenient, resolved>>
+                    /\ UNCHANGED <<tg, comp, objs, lenient, failed>>
+Use(op, m) == /\ m \in objs /\ Step(op, m) /\ UNCHANGED <<tg, comp, objs, lenient, resolved, failed>>
 
 Next == \E m \in Msgs : Decode(m) \/ DecodeFails(m) \/ DecodeLenient(m) \/ Encode(m) \/ EncodeRefused(m) \/ Use("query", m) \/ Use("render", m) \/ Use("rewire", m)
 
